@@ -294,6 +294,11 @@ class Ctx:
         cmd += ["./" + pkg if pkg else "."]
         e = dict(GOENV)
         e.update(env or {})
+        if "TMPDIR" not in e:
+            # dawn leaves directories behind in the temporary directory (DialGitRepository's mvs-repo-*, its own tests'
+            # projects): keep them inside this run's scratch directory, which is removed when the check ends
+            e["TMPDIR"] = os.path.join(self.tmp, "gotmp")
+            os.makedirs(e["TMPDIR"], exist_ok=True)
         return sh(cmd, cwd=REPO, env=e, timeout=timeout + 60)
 
     def go_build_overlay(self, pkg, files, outbin, tags="verif", timeout=600):
